@@ -2,6 +2,7 @@ import GMGDriver.GridDrv
 import GMGDriver.LinalgDrv
 import GMGDriver.ObjectsDrv
 import GMGDriver.OpsDrv
+import GMGDriver.OpsDrv2
 import GMGDriver.TransferDrv
 import GMGDriver.TraceDrv
 import GMGDriver.GridGenDrv
@@ -13,6 +14,9 @@ def main (args : List String) : IO UInt32 := do
   | ["lu"] => LinalgDrv.luMain
   | ["objects"] => ObjectsDrv.main
   | ["residual"] => OpsDrv.residualMain
+  | ["smooth"] => OpsDrv.smoothMain
+  | ["direct"] => OpsDrv.directMain
+  | ["matrix"] => OpsDrv.matrixMain
   | ["transfer"] => TransferDrv.main
   | ["trace"] => TraceDrv.main
   | ["gridgen"] => GridGenDrv.main
